@@ -1,6 +1,6 @@
 (* C16 -- serving stops cleanly and bind failures are reported, not swallowed.
    Theorems only.  n = number of listener goroutines (two per address). *)
-From NX Require Import Bytes Listen ListenFacts ListenRace Start StartFacts.
+From NX Require Import Bytes Listen ListenFacts ListenRace Start StartFacts Slots SlotsFacts.
 Open Scope Z_scope.
 
 (* every reachable state, for every n, every bind outcome, every cancellation
@@ -50,3 +50,21 @@ Print Assumptions C16_hang_refuted.
 Theorem C16_start_reports : forall ls s, srun true sinit ls = Some s -> false_success s = false.
 Proof. exact start_reports_failure. Qed.
 Print Assumptions C16_start_reports.
+
+(* ---- stopping does not wait for a request slot (proxy/udp.go serveUDP, F25) ---- *)
+(* the read loop takes its slot in a select with the serving context: in every reachable state in which the
+   socket has been closed it ends within two steps of its own -- no handler has to give a slot back *)
+Theorem C16_stop_does_not_wait : forall k ls s,
+  sruns true k (sinit0 k) ls = Some s -> s_closed s = true ->
+  exists own, (own = [] \/ own = [SNotice] \/ own = [SAcquire; SNotice]) /\
+    exists s', sruns true k s own = Some s' /\ s_loop s' = LStopped.
+Proof. exact stop_does_not_wait. Qed.
+Print Assumptions C16_stop_does_not_wait.
+
+(* the code before the repair (plain channel send): the state "every slot taken, socket closed, loop waiting
+   for a slot" is reachable, and nothing but a handler giving its slot back lets the loop end *)
+Theorem C16_stop_waited_refuted :
+  sruns false 1 (sinit0 1) [SAcquire; SDatagram; SCancel; SClose] = Some stuck_state /\
+  forall ls s, no_handler_done ls -> sruns false 1 stuck_state ls = Some s -> s = stuck_state.
+Proof. split; [exact stuck_reachable|exact stop_waits_for_a_slot_refuted]. Qed.
+Print Assumptions C16_stop_waited_refuted.
